@@ -240,7 +240,7 @@ def gridsearch_facts(gam_cls):
     tr = cand.body[0]
     need(body_text(tr.body) == ['gam = deepcopy(self)', 'gam.set_params(self.get_params())', 'gam.set_params(**param_grid)',
                                 'if models:\n    coef = models[-1].coef_\n    gam.set_params(coef_=coef, force=True, verbose=False)',
-                                'gam.fit(X, y, weights)'], 'gridsearch: try body changed:\n' + '\n'.join(body_text(tr.body)))
+                                'gam.fit(X, y, weights=weights)'], 'gridsearch: try body changed:\n' + '\n'.join(body_text(tr.body)))
     need(len(tr.handlers) == 1 and U(tr.handlers[0].type) == 'ValueError' and isinstance(tr.handlers[0].body[-1], ast.Continue)
          and not tr.orelse and not tr.finalbody, 'gridsearch: except ValueError: ... continue')
     F['skip_valueerror'] = True
